@@ -299,15 +299,22 @@ Definition holds_sub_case (slots : list sslot) (initial : list Z) (ops : list so
    - set_limit: rejected when limit >= capacity, nothing changes; a successful set_limit exposes bytes the property does
      not speak about: the rest of the case is not judged.
    A `Hang`, `Panic` or `Crash` where success is required fails.  The specification does not call the model. *)
+(* the numbers of the specification are fixed here, not taken from the table regenerated from the source: a source that
+   changes the growth rule, the maximum or the minimum fails the oracle (and the proofs that tie the model to these numbers) *)
+Definition SPEC_MAX : Z := 2147483639.        (* i32::MAX - 8 *)
+Definition SPEC_MIN : Z := 64.                (* 2 * HDR *)
+Definition SPEC_SAFE : Z := 1431655765.       (* the largest capacity c with c + c/2 <= i32::MAX *)
+Definition spec_grow (c : Z) : Z := Z.min SPEC_MAX (c + c / 2).
+
 Fixpoint first_cap (fuel : nat) (c r : Z) : Z :=
-  match fuel with O => c | S f => let c' := grow_spec c in if r <=? c' then c' else first_cap f c' r end.
+  match fuel with O => c | S f => let c' := spec_grow c in if r <=? c' then c' else first_cap f c' r end.
 Definition expect_cap (cap req : Z) : Z := if req <=? cap then cap else first_cap 96 cap req.
 
 Definition is_pow2 (c : Z) : bool := (0 <? c) && (2 ^ Z.log2 c =? c).
 Definition new_cap_ok (initial c : Z) : bool :=
-  (BB_MIN_CAPACITY <=? c) && is_pow2 c &&
-  (if (1 <=? initial) && (initial <=? 1073741824) then (initial <=? c) && ((c =? BB_MIN_CAPACITY) || (c <? 2 * initial))
-   else c =? BB_MIN_CAPACITY).
+  (SPEC_MIN <=? c) && is_pow2 c &&
+  (if (1 <=? initial) && (initial <=? 1073741824) then (initial <=? c) && ((c =? SPEC_MIN) || (c <? 2 * initial))
+   else c =? SPEC_MIN).
 
 Definition is_illegal_arg (r : outcome Z) : bool := match r with Err IllegalArg => true | _ => false end.
 
@@ -321,7 +328,7 @@ Definition judge_bop (st : ostate_bb) (o : bop) (ob : bobs) : bool * ostate_bb :
       let '(r, l', c', h') := ob in
       match o with
       | BAppend k len =>
-          if (0 <=? len) && (limit + len <=? BB_SAFE + 1) then
+          if (0 <=? len) && (limit + len <=? SPEC_SAFE + 1) then
             let content' := content ++ payload k len in
             let cap' := expect_cap cap (limit + len) in
             (out_eqb r (Ok 0) && (l' =? limit + len) && (c' =? cap') && (h' =? hash_bytes 7 content'),
@@ -357,8 +364,8 @@ Definition holds_bb_case (initial : Z) (ops : list bop) (obs : list bobs) : bool
    capacity, never an endless loop; in between a release build must return the prescribed capacity and a debug build may
    panic instead (the growth step overflows an i32) *)
 Definition holds_find (cap req : Z) (r : outcome Z) : bool :=
-  if negb ((2 <=? cap) && (cap <=? BB_MAX_CAPACITY) && (cap <? req)) then true     (* not a call a builder makes *)
-  else if req <=? BB_SAFE + 1 then out_eqb r (Ok (first_cap 96 cap req))
-  else if req <=? BB_MAX_CAPACITY then
+  if negb ((2 <=? cap) && (cap <=? SPEC_MAX) && (cap <? req)) then true     (* not a call a builder makes *)
+  else if req <=? SPEC_SAFE + 1 then out_eqb r (Ok (first_cap 96 cap req))
+  else if req <=? SPEC_MAX then
     match r with Ok c => c =? first_cap 96 cap req | Panic => true | _ => false end
   else match r with Err IllegalState => true | Panic => true | _ => false end.
